@@ -159,6 +159,11 @@ func verifC13Components(p *Core) (names []string, vals []reflect.Value) {
 // VerifC13Quiesce waits until the asynchronous part of a reload is over: the path manager processes
 // ReloadPathConfs in its own goroutine, a synchronous request through the same loop is a barrier.
 func VerifC13Quiesce(p *Core) {
+	if p.hlsServer != nil {
+		// the HLS server registers itself with the path manager at the beginning of its own goroutine:
+		// a synchronous request through its loop returns after that
+		p.hlsServer.APIMuxersList() //nolint:errcheck
+	}
 	if p.pathManager != nil {
 		p.pathManager.APIPathsList() //nolint:errcheck
 	}
